@@ -25,7 +25,7 @@ PID = 'C13'
 BUDGET = {
     # tier: (raise scenarios, exhaustive history length, random histories, late-error scenarios)
     'quick': (260, 2, 420, 160),
-    'thorough': (5000, 3, 9000, 3000),
+    'thorough': (2000, 3, 3500, 1200),
 }
 
 OPS = ('status', 'result', 'cancel')
